@@ -311,7 +311,13 @@ def run(repo, chk):
                 seq = defs[0] if len(defs) == 1 else seq
             if isinstance(seq, (ast.List, ast.Tuple)) and seq.elts and all(src(e).startswith('readers.read_') for e in seq.elts):
                 readers, reader_fn = [src(e) for e in seq.elts], fname
-    reader_calls = {'reader'} | ({reader_fn} if reader_fn and reader_fn != 'lex' else set())
+        if not readers:
+            # the same sequence written out (or a literal loop unrolled by the normal form): direct calls in order
+            direct = sorted((n for n in ast.walk(fn) if isinstance(n, ast.Call) and src(n.func).startswith('readers.read_')
+                             and [src(a) for a in n.args] == ['scan']), key=lambda n: (n.lineno, n.col_offset))
+            if len(direct) >= 2:
+                readers, reader_fn = [src(n.func) for n in direct], fname
+    reader_calls = {'reader'} | ({reader_fn} if reader_fn and reader_fn != 'lex' else set()) | set(readers)
     want = {'readers.read_symbol_token', 'readers.read_ident_or_keyword_token', 'readers.read_int_token',
             'readers.read_string_token', 'readers.read_char_token'}
     chk.expect(set(readers) == want and len(readers) == 5, 'C12.R4', 'lex::tok_readers', f'{readers}', LEXER)
